@@ -517,7 +517,7 @@ __CPROVER_frees(track != NULL: track->remote_ips; track)
 /* PO[C08] track_destroy.owner_releases_registration_and_timer */
 __CPROVER_ensures((track != NULL && owner) ==> (xv_regs == __CPROVER_old(xv_regs) - TRK_HELD(__CPROVER_old(track->fd_reg_id)) && \
                                                 xv_timers == __CPROVER_old(xv_timers) - TRK_HELD(__CPROVER_old(track->timer_id))))
-/* PO[C08] track_destroy.cleanup_is_process_local: owner == false (xcm_cleanup in a forked child): no xpoll change, no timer change */
+/* PO[C08,C04] track_destroy.cleanup_is_process_local: owner == false (xcm_cleanup in a forked child): no xpoll change, no timer change */
 __CPROVER_ensures((track == NULL || !owner) ==> (XV_SAME(xv_regs) && XV_SAME(xv_timers) && XV_SAME(xv_del_id)))
 /* PO[C08] track_destroy.frees_its_memory */
 __CPROVER_ensures_td(track != NULL ==> (__CPROVER_was_freed(track) && __CPROVER_was_freed(xv_g_ips)))
